@@ -31,6 +31,8 @@ pub fn run(mut config: Config) -> ::anyhow::Result<()> {
         ));
     }
 
+    workers::socket::validate_response_sizes(&config)?;
+
     if config.socket_workers == 0 {
         config.socket_workers = available_parallelism().map(Into::into).unwrap_or(1);
     };
